@@ -308,4 +308,115 @@ theorem colEq_trans (a b c : TableColumn A) (h1 : colEq a b = true) (h2 : colEq 
     h1.2.2.2.2.trans h2.2.2.2.2⟩
 end col
 
+/-! ### list-lifted equality -/
+section list
+variable {α : Type} (eq : α → α → Bool)
+
+theorem eqList_length : ∀ {a b : List α}, eqList eq a b = true → a.length = b.length := by
+  intro a
+  induction a with
+  | nil => intro b h; cases b <;> simp_all [eqList]
+  | cons x xs ih =>
+    intro b h
+    cases b with
+    | nil => simp [eqList] at h
+    | cons y ys => simp [eqList] at h; simp [ih h.2]
+
+/-- a list is never equal to a proper extension of itself (nor the other way round) -/
+theorem eqList_prefix_ne (a ext : List α) (h : ext ≠ []) :
+    eqList eq a (a ++ ext) = false ∧ eqList eq (a ++ ext) a = false := by
+  constructor
+  · cases hq : eqList eq a (a ++ ext) with
+    | false => rfl
+    | true =>
+      have := eqList_length eq hq
+      simp at this
+      exact absurd this h
+  · cases hq : eqList eq (a ++ ext) a with
+    | false => rfl
+    | true =>
+      have := eqList_length eq hq
+      simp at this
+      exact absurd this h
+
+theorem eqList_refl_iff : (∀ l : List α, eqList eq l l = true) ↔ (∀ x, eq x x = true) := by
+  constructor
+  · intro h x; have := h [x]; simpa [eqList] using this
+  · intro h l
+    induction l with
+    | nil => rfl
+    | cons x xs ih => simp [eqList, h x, ih]
+
+theorem eqList_symm_iff : (∀ a b : List α, eqList eq a b = true → eqList eq b a = true) ↔
+    (∀ x y, eq x y = true → eq y x = true) := by
+  constructor
+  · intro h x y hxy
+    have := h [x] [y] (by simpa [eqList] using hxy)
+    simpa [eqList] using this
+  · intro h a
+    induction a with
+    | nil => intro b hb; cases b <;> simp_all [eqList]
+    | cons x xs ih =>
+      intro b hb
+      cases b with
+      | nil => simp [eqList] at hb
+      | cons y ys =>
+        simp [eqList] at hb ⊢
+        exact ⟨h _ _ hb.1, ih ys hb.2⟩
+
+theorem eqList_trans_iff :
+    (∀ a b c : List α, eqList eq a b = true → eqList eq b c = true → eqList eq a c = true) ↔
+    (∀ x y z, eq x y = true → eq y z = true → eq x z = true) := by
+  constructor
+  · intro h x y z hxy hyz
+    have := h [x] [y] [z] (by simpa [eqList] using hxy) (by simpa [eqList] using hyz)
+    simpa [eqList] using this
+  · intro h a
+    induction a with
+    | nil => intro b c hab hbc; cases b <;> cases c <;> simp_all [eqList]
+    | cons x xs ih =>
+      intro b c hab hbc
+      cases b with
+      | nil => simp [eqList] at hab
+      | cons y ys =>
+        cases c with
+        | nil => simp [eqList] at hbc
+        | cons z zs =>
+          simp [eqList] at hab hbc ⊢
+          exact ⟨h _ _ _ hab.1 hbc.1, ih ys zs hab.2 hbc.2⟩
+
+/-- without the length check the empty list "equals" every list, so the relation is not transitive
+as soon as two elements differ -/
+theorem eqZip_not_trans (x y : α) (hxy : eq x y = false) :
+    eqZip eq [x] [] = true ∧ eqZip eq [] [y] = true ∧ eqZip eq [x] [y] = false := by
+  simp [eqZip, hxy]
+end list
+
+/-- the repaired `QueryPlan.__eq__` is list-lifted step equality: `True` exactly when the plans have the
+same type, the same number of steps and pairwise equal steps; never `True` for a plan and a proper
+extension of it (in particular the empty plan equals only the empty plan) -/
+theorem planEq_fixed_iff {St : Type} (seq : St → St → Bool) (st : Bool) (a b : List St) :
+    planEq (fun x y => if seq x y then R.true else R.false) true st a b = .true ↔
+      st = true ∧ eqList seq a b = true := by
+  unfold planEq
+  cases st with
+  | false => simp
+  | true =>
+    simp only [Bool.not_true, Bool.false_eq_true, if_false, true_and]
+    induction a generalizing b with
+    | nil => cases b <;> simp [planLoop, eqList]
+    | cons x xs ih =>
+      cases b with
+      | nil => simp [eqList]
+      | cons y ys =>
+        have := ih ys
+        by_cases hl : xs.length = ys.length
+        · simp only [List.length_cons, hl, ne_eq, not_true_eq_false, if_false] at this ⊢
+          cases hs : seq x y <;> simp [planLoop, eqList, hs, R.ne, this]
+        · have hne : eqList seq xs ys = false := by
+            cases hq : eqList seq xs ys with
+            | false => rfl
+            | true => exact absurd (eqList_length seq hq) hl
+          simp [hl, eqList, hne]
+
 end MindsVerif.PyEq
